@@ -71,6 +71,7 @@ func genC03Program(r *R, ex map[string]bool) *Program {
 	// keys that collide under plausible normalisations (case folding, trimming, numeric parsing)
 	str := func(x string) *Val { return &Val{T: "str", S: x} }
 	ctx.M = append(ctx.M,
+		KV{"em", &Val{T: "map", M: []KV{{"", str("empty-key")}, {"de", str("D")}, {"at", str("A")}, {" ", str("space-key")}}}},
 		KV{"cs", &Val{T: "map", M: []KV{{"Accept", str("A1")}, {"accept", str("a2")}, {"ACCEPT", str("A3")}, {"b", str("b4")}, {"B", str("B5")}, {" b", str("sb")}}}},
 		KV{"cs2", &Val{T: "smap", M: []KV{{"Key", str("K")}, {"key", str("k")}, {"1", str("one")}, {"01", str("zero-one")}, {"1.0", str("one-dot")}}}},
 	)
@@ -79,7 +80,7 @@ func genC03Program(r *R, ex map[string]bool) *Program {
 		KV{"bm", &Val{T: "bmap", M: []KV{{"true", &Val{T: "int", I: 1}}, {"false", &Val{T: "int", I: 0}}}}},
 		KV{"km", &Val{T: "kmap", M: []KV{{"zeta", str("Z")}, {"alpha", str("A")}, {"mid", str("M")}}}},
 	)
-	maps := []string{"m1", "m2", "mi", "p1.Meta", "nm", "nm.b", "si", "mx", "cs", "cs2", "fm", "bm", "km", "gm", "gp.Meta"}
+	maps := []string{"m1", "m2", "mi", "p1.Meta", "nm", "nm.b", "si", "mx", "cs", "cs2", "fm", "bm", "km", "gm", "gp.Meta", "em"}
 	hashLit := func() string {
 		n := r.Range(2, 4)
 		keys := []string{"a", "b", "c", "d"}
@@ -103,7 +104,7 @@ func genC03Program(r *R, ex map[string]bool) *Program {
 		return pick(r, maps)
 	}
 	seg := func() string {
-		switch r.N(20) {
+		switch r.N(21) {
 		case 0, 1:
 			return "{% for k, v in " + anyMap() + " %}{{ k }}={{ v|json_encode }}|{{ loop.index }};{% endfor %}"
 		case 2:
@@ -146,6 +147,9 @@ func genC03Program(r *R, ex map[string]bool) *Program {
 			return "{% for k, v in " + pick(r, maps) + " %}{% for k2, v2 in " + pick(r, maps) + " %}{{ k }}{{ k2 }}{% endfor %}/{% endfor %}"
 		case 12:
 			return "{{ " + pick(r, maps) + "|json_encode }}"
+		case 19:
+			// filters taking a hash argument whose entries interact (prefix-overlapping keys, keys that are values of others)
+			return "{{ " + pick(r, []string{"':id :id_post'", "'%title %titlecase'", "s2", "'ab abc a'"}) + "|replace(" + pick(r, []string{"{':id': '1', ':id_post': '2', ':i': '3'}", "{'%title': 'T', '%titlecase': 'C'}", "{'a': 'b', 'b': 'a', 'ab': 'c'}", "{'a': 'x', 'abc': 'y', 'ab': 'z'}"}) + ") }}"
 		case 18:
 			// dot access / subscripts with spellings that match several keys only after case folding or trimming
 			return "{{ " + pick(r, []string{"cs.accept", "cs.aCCEPT", "cs.Accept", "cs['ACCEPT']", "cs.b", "cs.B", "cs2.KEY", "cs2.key", "cs2['Key']", "m1.K1", "cs[' b']", "cs2['1']", "cs2['01']", "mx['10']", "mx[10]"}) + "|default('-') }}"
